@@ -62,8 +62,10 @@ RULES = {
             "register guard, or the emptiness test of the deferral buffer",
     "DELEG": "hash_wset / hash_weigthed_idxmap / hash_weigthed_hashmap of ProbMinHash2/3 call hash_item exactly once per "
              "element with the element's key and weight unchanged and have no other effect on self",
-    "CLONE": "the IndexMap and HashMap entry points of 3a (and of 3aSha) have identical normal forms; 3a and 3aSha agree "
-             "outside the seeding block",
+    "CLONE": "the IndexMap and HashMap entry points of 3a (and of 3aSha) have identical normal forms (entry-point independence); "
+             "agreement of 3a with 3aSha outside the seeding block is recorded as information only",
+    "BAND": "the band (unit interval) counter visits band 1 first and advances by one in ProbMinHash3 (i from 1, band i) and in "
+            "3a/3aSha (pass counter from 2, band i-1) alike, and 3a's keep filters test the lower end of the next band",
     "RESETBEFORE": "in ProbMinHash2::hash_item permut_generator.reset() dominates every permut_generator.next()",
     "TRACKERSHAPE": "MaxValueTracker::get_max_value returns values[last_index]; is_update_possible(v) returns v < "
                     "values[last_index]; get_value(k) returns values[k]",
@@ -320,6 +322,100 @@ def _types_erased(s):
     return re.sub(r"key", "key", s)
 
 
+def _affine(e, var):
+    """(a, b) with e == a*var + b for integer-affine expressions of the local `var`, else None"""
+    e = nf.strip_casts(e)
+    k = e["k"]
+    if k == "Lit" and e.get("lk") == "int":
+        return (0, int(e["v"]))
+    if k == "Path" and "local" in e["res"] and e["res"]["name"] == var:
+        return (1, 0)
+    if k == "Binary" and e["op"] in ("+", "-"):
+        l, r = _affine(e["l"], var), _affine(e["r"], var)
+        if l is None or r is None:
+            return None
+        sg = 1 if e["op"] == "+" else -1
+        return (l[0] + sg * r[0], l[1] + sg * r[1])
+    return None
+
+
+def _band_rule(ctx, facts, fid):
+    """the k-th unit interval visited by an item is [k*winv, (k+1)*winv): the band counter must give k = 1 on first use
+    and advance by one, in ProbMinHash3 (loop counter from 1, band = i) and in 3a/3aSha (pass counter from 2, band = i-1)
+    alike; 3a's keep filter must test the lower end of the NEXT band"""
+    from ..rulelib import def_exprs
+    fn = facts.fn(fid)
+    where = hirq.loc(fn)
+    idefs = def_exprs(fn, "i")
+    inits = [d for d in idefs if d["k"] != "AssignOp"]
+    steps = [d for d in idefs if d["k"] == "AssignOp"]
+    if len(inits) != 1 or len(steps) != 1 or _affine(inits[0], "i") is None or nf.nf(steps[0]) != "i += 1":
+        ctx.violation("BAND", fid, "band counter", where, "the band counter `i` must be initialised once with a literal and advanced by `i += 1`; found %s" % [nf.nf(d) for d in idefs])
+        return
+    c0 = _affine(inits[0], "i")[1]
+    # band assignments h = <band> * winv
+    bands = []
+    for d in def_exprs(fn, "h"):
+        if d["k"] == "AssignOp":
+            continue
+        e = nf.strip_casts(d)
+        if e["k"] == "Binary" and e["op"] == "*":
+            for (x, y) in ((e["l"], e["r"]), (e["r"], e["l"])):
+                if nf.nf(y, True) == "winv":
+                    a = _affine(x, "i")
+                    if a is not None:
+                        bands.append((a, d))
+    if len(bands) != 1:
+        ctx.violation("BAND", fid, "band expression", where, "expected exactly one assignment h = <affine in i> * winv; found %d" % len(bands))
+        return
+    (a, b), node = bands[0]
+    first = a * c0 + b
+    if a == 1 and first == 1:
+        ctx.ok("BAND", fid, "band index %s with i from %d: first band 1, unit step" % ("i%+d" % b if b else "i", c0), hirq.loc(node))
+    else:
+        ctx.violation("BAND", fid, "band offset", hirq.loc(node),
+                      "the lower end of the band is (%d*i%+d)*winv with i starting at %d: the first band visited after the initial point is %d, not 1 — ProbMinHash3 and 3a/3aSha would visit different unit intervals" % (a, b, c0, first))
+        return
+    # keep filters of the two-pass variants: `winv < qmax` after the first point, `winv * i < qmax` in pass i
+    t = tree_of(fn)
+    keeps = []
+    for n_ in user_nodes(fn):
+        if n_["k"] == "MethodCall" and n_["name"] == "push" and nf.nf(n_["recv"]) == "self.to_be_processed":
+            keeps.append((n_, c0 - 1))      # after the first pass the next band is band(c0)
+        elif n_["k"] == "Assign" and slicer.base_place(n_["l"])[:2] == ("self", "to_be_processed"):
+            keeps.append((n_, None))
+    for (kn, _x) in keeps:
+        conds = nf.all_conditions(t, kn, stop=t.enclosing_loops(kn)[0] if t.enclosing_loops(kn) else None)
+        inner = conds[0] if conds else None
+        ok = False
+        nxt = 1 if kn["k"] == "MethodCall" else 1 + b      # index of the next band, as an offset to the counter (push: absolute)
+        if inner and inner[0] == "cmp" and inner[2] in ("<", "<="):
+            # find the comparison node again to evaluate its left side symbolically
+            lhs_aff = None
+            for (cnode, pol) in t.conditions(kn):
+                if isinstance(pol, bool) and pol:
+                    c_ = nf.strip(cnode)
+                    if c_["k"] == "Binary" and c_["op"] in ("<", "<="):
+                        l_ = nf.strip_casts(c_["l"])
+                        if nf.nf(l_, True) == "winv":
+                            lhs_aff = (0, 1)
+                        elif l_["k"] == "Binary" and l_["op"] == "*":
+                            for (x, y) in ((l_["l"], l_["r"]), (l_["r"], l_["l"])):
+                                if nf.nf(y, True) == "winv" and _affine(x, "i") is not None:
+                                    lhs_aff = _affine(x, "i")
+                        break
+            if lhs_aff is not None:
+                ca, cb = lhs_aff
+                if kn["k"] == "MethodCall":
+                    ok = ca == 0 and cb <= nxt          # c*winv with c <= 1: never drops an item whose next band may matter
+                else:
+                    ok = ca == 1 and cb <= nxt          # (i + off)*winv with off <= offset of the next band
+        if ok:
+            ctx.ok("BAND", fid, "keep filter tests the lower end of the next band: %s" % (inner,), hirq.loc(kn))
+        else:
+            ctx.violation("BAND", fid, "keep filter", hirq.loc(kn), "the item is kept for a later pass when %s, which is not `lower end of the next band < max`" % (inner,))
+
+
 def run(ctx, facts):
     for k, v in RULES.items():
         ctx.rule(k, v)
@@ -331,7 +427,7 @@ def run(ctx, facts):
     ctx.not_decided[:] = [
         "that no position shows the placeholder; power-of-two scaling invariance; union composition (value-level)",
         "that the tracker returns the true maximum (C15, n/a) beyond the accessor shapes",
-        "the offset between ProbMinHash3's loop counter and 3a's pass counter (loop-invariant reasoning)"]
+        "that the first band of an item is consumed before pruning in exactly the same situations in 3 and 3a (value-level)"]
     # 1 SEED
     n = check_seeds(ctx, facts, "SEED", SEED_TABLE)
     ctx.floor("C02 SEED sites", n, 6)
@@ -383,6 +479,8 @@ def run(ctx, facts):
             ctx.ok("TRACKERSHAPE", MT + name, got, hirq.loc(f))
         else:
             ctx.violation("TRACKERSHAPE", MT + name, "accessor shape", hirq.loc(f), "expected %s, found %s" % (want, got[:100]))
+    for fid in PROTO_FNS:
+        _band_rule(ctx, facts, fid)
     # 5 DELEG, CLONE
     for (fid, item) in DELEG_FNS:
         _deleg(ctx, facts, fid, item)
@@ -405,8 +503,9 @@ def run(ctx, facts):
         else:
             diff = [(x, y) for (x, y) in zip(ra[0] + ra[1], rb[0] + rb[1]) if x != y]
             d = diff[0] if diff else ("<length %d>" % (len(ra[0]) + len(ra[1])), "<length %d>" % (len(rb[0]) + len(rb[1])))
-            ctx.violation("CLONE", SHA + "hash_weigthed_idxmap", "3a/3aSha disagree", hirq.loc(facts.fn(SHA + "hash_weigthed_idxmap")),
-                          "outside the seeding block ProbMinHash3a has `%s` where ProbMinHash3aSha has `%s`" % (d[0][:90], d[1][:90]))
+            # agreement across the two structs is not part of the property (each is checked by the rules above on its own);
+            # a one-sided, behaviour-preserving edit would differ here, so this is information only
+            ctx.info("3a and 3aSha differ outside the seeding block: ProbMinHash3a has `%s` where ProbMinHash3aSha has `%s`" % (d[0][:90], d[1][:90]))
     # 6 RESETBEFORE
     from . import C13
     C13.require_verified_reset(ctx, facts, [C13.FY], "RESETBEFORE")
